@@ -55,6 +55,7 @@ type UOpts struct {
 	Foreign   bool // some layers carry a foreign / non-distributable layer media type
 	MTWild    bool // some index entries list a child manifest under a media type that is no manifest type at all
 	OddAT     bool // artifact types that contain + & = % #
+	HotAnn    bool // some artifacts carry the annotation org.opencontainers.image.ref.name (a standard key, a tag in a layout index)
 	Tags      []string
 	Tag       string // unique content marker
 }
@@ -198,7 +199,12 @@ func GenUniverse(r *rand.Rand, o UOpts) *Universe {
 		if r.Intn(3) == 0 {
 			return nil
 		}
-		return map[string]string{"name": name, "u": o.Tag}
+		a := map[string]string{"name": name, "u": o.Tag}
+		if o.HotAnn && r.Intn(2) == 0 {
+			// annotation keys that mean something to an OCI layout: on an artifact manifest they are just annotations
+			a["org.opencontainers.image.ref.name"] = []string{"v1", "v1", "release"}[r.Intn(3)]
+		}
+		return a
 	}
 	var images, indexes, all []*Man
 	for i := 0; i < o.NImages; i++ {
